@@ -113,6 +113,12 @@ impl<S: Stream + Unpin> StreamSource<S> {
                 !end_of_stream ==> crate::futures_core::w_stream_pending::<S>(),
 //@ tail
         end_of_stream
+//@ alt
+//@ entry
+        // (alternative overlay for a closure body WITHOUT the poll loop -- e.g. the loop moved out of the closure, in front of
+        // the drain of the eventfd: same contract, so a closure that does not poll the stream to Pending / to its end after
+        // the wake-up has been consumed is reported instead of being undecided)
+        let mut end_of_stream = false;
 //@ endslice
 
 //@ slice src/sources/stream.rs / impl EventSource for StreamSource<S> / fn process_events :: stmts <<if end_of_stream {>> .. <<if end_of_stream {>> props=C10 name=StreamSource::process_events::post_poll
